@@ -1,7 +1,7 @@
 """Creation part (C04 C09 C12): Creation.tla enumerated by TLC (every instance x Take(n) x number of subscriptions of the same value); replay on the real operators."""
 import parts_pipeline as pp
 
-CLASS_PROPS = {'values': ['C04', 'C12'], 'closed': ['C06'], 'sub': ['C12', 'C04'], 'late': ['C01'], 'ctx-nil': ['C09'], 'ctx-missing': ['C09'], 'panic': ['C07']}
+CLASS_PROPS = {'values': ['C04', 'C12'], 'closed': ['C06'], 'sub': ['C12', 'C04'], 'late': ['C01'], 'ctx-nil': ['C09'], 'ctx-missing': ['C09'], 'panic': ['C07'], 'hang': ['C07', 'C04', 'C12', 'C09']}
 
 
 def run(rep, pid, thorough):
